@@ -237,13 +237,13 @@ class Check(core.PropertyCheck):
                 ("jar", "jar_first", "tampered"), ("none", "pair_hdr"), ("", "cross-site")))
             return full + pw, sess
         full = list(itertools.product(
-            names, METHODS_ALL, ("none", "bearer_wrong", "query_wrong", "form_wrong", "bearer_valid", "query_valid"),
-            ("none", "forged", "plain", "garbage"), ("none", "pair_hdr", "mismatch", "pair_arg"), ("", "cross-site", "same-origin")))
+            names, METHODS_ALL, ("none", "bearer_wrong", "query_wrong", "bearer_valid"),
+            ("none", "forged", "plain"), ("none", "pair_hdr", "mismatch"), ("", "cross-site", "same-origin")))
         pw = pairwise([names, list(METHODS_ALL), list(CRED_NO[:7] + CRED_YES + CRED_AMB),
                        ["none"] + list(CK_FORGED), list(XSRF_OK + XSRF_BAD), list(SFS)], rng)
         sess = list(itertools.product(
             reps, ("GET", "POST", "PUT", "DELETE"), ("none", "bearer_wrong", "bearer_old", "query_old"),
-            ("jar", "jar_first", "tampered"), ("none", "pair_hdr", "hdr_only"), ("", "cross-site", "same-site")))
+            ("jar", "jar_first", "tampered"), ("none", "pair_hdr"), ("", "cross-site")))
         return full + pw, sess
 
     def model_constants(self, tier, rows=(), sess=(), logins=("bearer_valid", "form_valid"), max_pre=2):
